@@ -215,6 +215,22 @@ class Effects:
                             if t is not None:
                                 return ("py", t)
             return None
+        if len(parts) == 2 and parts[0] == "self" and "." in fi.qual:
+            # a method of the same class
+            t = self.funcs.get((fi.rel, fi.qual.rsplit(".", 1)[0] + "." + parts[1]))
+            if t is not None and t.params and t.params[0] == "self":
+                return ("py", t, 1)
+            return None
+        if len(parts) == 2 and parts[0] != "self":
+            # f.write(...) where f was bound by `with Cls(...) as f` in this function
+            for st in walk_no_nested(fi.fn):
+                if isinstance(st, ast.With):
+                    for it in st.items:
+                        if isinstance(it.optional_vars, ast.Name) and it.optional_vars.id == parts[0] and isinstance(it.context_expr, ast.Call):
+                            cname = (call_name(it.context_expr) or "").split(".")[-1]
+                            cands = [t for (r_, q_), t in self.funcs.items() if q_ == cname + "." + parts[1]]
+                            if len(cands) == 1 and cands[0].params and cands[0].params[0] == "self":
+                                return ("py", cands[0], 1)
         if len(parts) >= 2 and parts[0] != "self":
             mb, name = parts[-2], parts[-1]
             t = self.by_mod.get(mb, {}).get(name)
@@ -317,7 +333,7 @@ class Effects:
                     else:
                         callee = tgt[1]
                         cps = callee.params
-                        off = 0
+                        off = tgt[2] if len(tgt) > 2 else 0
                         for j, a in enumerate(c.args):
                             if isinstance(a, ast.Starred):
                                 break
@@ -357,6 +373,8 @@ def get_effects(ctx):
         py = [f for f in ctx.py.all_py("mdtraj/geometry") if f.endswith(".py")]
         py += [f for f in ctx.py.all_py("mdtraj/nmr") if f.endswith(".py")]
         py += ["mdtraj/core/trajectory.py", "mdtraj/utils/validation.py", "mdtraj/utils/unitcell.py"]
+        # the file classes written in Python: a saver hands self.xyz to their write()
+        py += [f for f in ctx.py.all_py("mdtraj/formats") if f.endswith(".py") and not f.endswith("__init__.py")]
         _eff_cache.clear()
         _eff_cache[key] = Effects(ctx, py)
     return _eff_cache[key]
